@@ -202,3 +202,22 @@ Print Assumptions C13_rs_order.
 Print Assumptions C13_rs_text.
 Print Assumptions C13_rs_voices.
 Print Assumptions C13_rs_idempotent.
+
+(* ---- second audit, N13: what [wf_refs] says, exactly, and what it cannot say ----
+   [wf_refs s] is a statement about IDENTIFIERS only:
+     (1) every style identifier referred to by a cue or by one of its runs is the ID of some style definition of s;
+     (2) every region identifier referred to by a cue is the ID of some region definition of s;
+     (3) the style identifier of every region definition is the ID of some style definition;
+     (4) the parent identifier of every style definition is the ID of some style definition;
+     (5) the IDs of the style definitions are pairwise distinct.
+   It does not say - and the model cannot say, because it identifies a reference with the identifier of its target - that
+   the OBJECT a pointer leads to is the one stored in the map for that identifier.  The comment above ("under wf_refs ...
+   the two readings coincide") therefore overstated: the readings coincide under wf_refs AND the heap hypothesis that every
+   pointer (cue -> style, run -> style, cue -> region, region -> style, style -> parent) targets the map's own entry for its
+   identifier.  On a heap that violates it (an "aliased" style object: same ID, another parent link) the library walks the
+   pointed object's parents while the stored definition with that ID keeps its own parent link: Optimize then deletes a
+   parent that a kept definition still refers to.  That case has no model (the harness encodes references by ID); it is
+   exercised by the oracle-only suite optimize.alias (harness/ops5.go) with the property's own oracle "every reference
+   left in the list still resolves", which the library FAILS there - recorded as finding optimize-aliased-style-object
+   (known_findings.json) with the minimal input: styles {k0, k1 -> k0}, one cue whose style is another object with ID k1
+   and no parent; after Optimize the stored k1 still points to the deleted k0. *)
